@@ -26,9 +26,12 @@ func (items OrderSchemaItems) MarshalJSON() ([]byte, error) {
 		if i > 0 {
 			buf.WriteString(",")
 		}
-		buf.WriteString("\"")
-		buf.WriteString(items[i].Name)
-		buf.WriteString("\":")
+		name, err := json.Marshal(items[i].Name)
+		if err != nil {
+			return nil, err
+		}
+		buf.Write(name)
+		buf.WriteString(":")
 		bs, err := json.Marshal(&items[i].Schema)
 		if err != nil {
 			return nil, err
